@@ -327,7 +327,8 @@ func (t *T) Key() string {
 		}
 		// Live keys enter the state key by equivalence class: the tree touches keys only through
 		// the comparator, so two states that differ in which representative of a class is stored
-		// have the same futures (the oracle compares keys by class too). Vacated slots are dumped
+		// have the same futures (the oracle's model is rebuilt along each path, so it knows which
+		// representative that path stored). Vacated slots are dumped
 		// raw, so retained garbage still makes a different state.
 		for i, k := range n.Keys {
 			if i < n.N {
@@ -438,7 +439,7 @@ func (t *T) CheckRange(sp IterSpec) *seqx.Viol {
 	bad := len(got) != len(want) || extra > 0
 	if !bad {
 		for i := range got {
-			if t.Cfg.Class(got[i][0]) != want[i][0] || (!t.Cfg.Set && got[i][1] != want[i][2]) {
+			if got[i][0] != want[i][1] || (!t.Cfg.Set && got[i][1] != want[i][2]) {
 				bad = true
 			}
 		}
@@ -481,9 +482,11 @@ func (t *T) ObserveC01(bounds []int, probes []int) *seqx.Viol {
 			return
 		}
 		f, l := sorted[0], sorted[len(sorted)-1]
-		if t.Cfg.Class(fk) != f[0] || (!t.Cfg.Set && fv != f[2]) {
+		// the stored key is the one first put for its class ("overwriting the value for the key",
+		// "adds item if it is not already present"), so keys are compared exactly, not by class
+		if fk != f[1] || (!t.Cfg.Set && fv != f[2]) {
 			v = viol("c01/First", "First()=(%d,%d), model %v", fk, fv, f)
-		} else if t.Cfg.Class(lk) != l[0] || (!t.Cfg.Set && lv != l[2]) {
+		} else if lk != l[1] || (!t.Cfg.Set && lv != l[2]) {
 			v = viol("c01/Last", "Last()=(%d,%d), model %v", lk, lv, l)
 		}
 	}); g != nil {
@@ -789,6 +792,10 @@ func (t *T) CheckFootprint() *seqx.Viol {
 	}
 	for _, e := range t.Sorted() {
 		k := e[1]
+		// under a coarse order, put the class's other representative: the stored key must stay
+		if alt := k ^ 1; t.Cfg.Class(alt) == t.Cfg.Class(k) && alt != k && alt >= 0 && alt <= t.Cfg.U {
+			k = alt
+		}
 		before, vb := t.rawDump()
 		if g := t.Guard("Put", func() { t.Put(k) }); g != nil {
 			return g
